@@ -21,7 +21,7 @@ func NewPrintReporter returns (pr)
 func (PrintReporter).Process returns (err)
   props C17 C08 C14
   requires @args ln != nil && pr.output != nil
-  modifies ghost(bufSticky, sinkFailed, sinkPend, prLen, prSink, prArg, prArgs)
+  modifies ghost(bufSticky, sinkFailed, sinkPend, prLen, prSink, prArg, prArgs, prFmt)
   let NM := if ln.Metadata == nil then 0 else len(*ln.Metadata)
   let NE := len(ln.Elements)
   let B := prLen
@@ -31,14 +31,22 @@ func (PrintReporter).Process returns (err)
   ensures @heading [C14] err == nil ==> PrintedStr(B, 0, FormatTime(ln.Time, pr.dateFormat))
   ensures @notes [C14] err == nil ==> (forall k int :: {prArgs[k]} B + 1 <= k && k < B + 1 + NM ==> (if (*ln.Metadata)[k - B - 1].Name != "" then PrintedStr(k, 0, (*ln.Metadata)[k - B - 1].Name) && PrintedStr(k, 1, (*ln.Metadata)[k - B - 1].Value) else PrintedStr(k, 0, (*ln.Metadata)[k - B - 1].Value)))
   ensures @entries [C14] err == nil ==> (forall k int :: {prArgs[k]} B + 1 + NM <= k && k < B + 1 + NM + NE ==> PrintedStr(k, 0, ln.Elements[k - B - 1 - NM].Name) && PrintedF(k, 1, ln.Elements[k - B - 1 - NM].Value))
+  // the LAYOUT of the normal form (C14): "DATE:", notes as "  # name: value" / "  # text", entries as
+  // "  - name: quantity" with two decimals - the layout the parser reads back (a heading in column 0, indented
+  // lines, '#' for notes, a blank before the value)
+  ensures @layout-heading [C14] err == nil ==> prFmt[B] == "%s:\n"
+  ensures @layout-notes [C14] err == nil ==> (forall k int :: {prFmt[k]} B + 1 <= k && k < B + 1 + NM ==> prFmt[k] == (if (*ln.Metadata)[k - B - 1].Name != "" then "  # %s: %s\n" else "  # %s\n"))
+  ensures @layout-entries [C14] err == nil ==> (forall k int :: {prFmt[k]} B + 1 + NM <= k && k < B + 1 + NM + NE ==> prFmt[k] == "  - %s: %0.2f\n")
   loop 1 {
     invariant @sink ln == old(ln) && pr == old(pr) && BufStep(pr.output) && bufSticky[pr.output] == old(bufSticky[pr.output]) && ln.Metadata != nil && NM == len(*ln.Metadata)
+    invariant @layout prFmt[B] == "%s:\n" && (forall k int :: {prFmt[k]} B + 1 <= k && k < prLen ==> prFmt[k] == (if (*ln.Metadata)[k - B - 1].Name != "" then "  # %s: %s\n" else "  # %s\n"))
     invariant @count prLen == B + 1 + #i
     invariant @heading PrintedStr(B, 0, FormatTime(ln.Time, pr.dateFormat)) && payload(prArgs[B][0]) < alloc() && payload(prArgs[B][0]) >= old(alloc())
     invariant @notes forall k int :: {prArgs[k]} B + 1 <= k && k < prLen ==> (if (*ln.Metadata)[k - B - 1].Name != "" then PrintedStr(k, 0, (*ln.Metadata)[k - B - 1].Name) && PrintedStr(k, 1, (*ln.Metadata)[k - B - 1].Value) else PrintedStr(k, 0, (*ln.Metadata)[k - B - 1].Value)) && payload(prArgs[k][0]) < alloc() && payload(prArgs[k][0]) >= old(alloc()) && ((*ln.Metadata)[k - B - 1].Name != "" ==> payload(prArgs[k][1]) < alloc() && payload(prArgs[k][1]) >= old(alloc()))
   }
   loop 2 {
     invariant @sink ln == old(ln) && pr == old(pr) && BufStep(pr.output) && bufSticky[pr.output] == old(bufSticky[pr.output])
+    invariant @layout prFmt[B] == "%s:\n" && (forall k int :: {prFmt[k]} B + 1 <= k && k < B + 1 + NM ==> prFmt[k] == (if (*ln.Metadata)[k - B - 1].Name != "" then "  # %s: %s\n" else "  # %s\n")) && (forall k int :: {prFmt[k]} B + 1 + NM <= k && k < prLen ==> prFmt[k] == "  - %s: %0.2f\n")
     invariant @count prLen == B + 1 + NM + #i
     invariant @heading PrintedStr(B, 0, FormatTime(ln.Time, pr.dateFormat)) && payload(prArgs[B][0]) < alloc() && payload(prArgs[B][0]) >= old(alloc())
     invariant @notes forall k int :: {prArgs[k]} B + 1 <= k && k < B + 1 + NM ==> (if (*ln.Metadata)[k - B - 1].Name != "" then PrintedStr(k, 0, (*ln.Metadata)[k - B - 1].Name) && PrintedStr(k, 1, (*ln.Metadata)[k - B - 1].Value) else PrintedStr(k, 0, (*ln.Metadata)[k - B - 1].Value)) && payload(prArgs[k][0]) < alloc() && payload(prArgs[k][0]) >= old(alloc()) && ((*ln.Metadata)[k - B - 1].Name != "" ==> payload(prArgs[k][1]) < alloc() && payload(prArgs[k][1]) >= old(alloc()))
@@ -61,7 +69,7 @@ func Print returns (err)
   requires @streams logStream != nil
   requires @sink pc.ReporterConfig.Output != nil && !typeis(pc.ReporterConfig.Output, "*bufio.Writer") && !typeis(pc.ReporterConfig.Output, "*encoding/csv.Writer")
   modifies *
-  modifies ghost(cbLen, cbErr, cbNode, cbStop, cbRet, cbLineNo, cbLine, cbHeader, cbElems, cbNElems, scRd, scPos, privLo, evOf, accKey, accP, accN, accH, bufSink, bufSticky, sinkFailed, sinkPend, prLen, prSink, prArg, prArgs, csvLen, csvW, csvN, csvRow, tnodes, tdepth, tmax, tmapOf, jlen, tvLen, tv, tseg, tvSet, adLen, adName, adVal, adSep, adRoot, procLen, procTime, procSrc)
+  modifies ghost(cbLen, cbErr, cbNode, cbStop, cbRet, cbLineNo, cbLine, cbHeader, cbElems, cbNElems, scRd, scPos, privLo, evOf, accKey, accP, accN, accH, bufSink, bufSticky, sinkFailed, sinkPend, prLen, prSink, prArg, prArgs, prFmt, csvLen, csvW, csvN, csvRow, tnodes, tdepth, tmax, tmapOf, jlen, tvLen, tv, tseg, tvSet, adLen, adName, adVal, adSep, adRoot, procLen, procTime, procSrc)
   let out := payload(pc.ReporterConfig.Output)
   let rd := payload(logStream)
   let cc := pc.ParserConfig.CommentChar
@@ -76,18 +84,18 @@ func Print returns (err)
 // ---------------------------------------------------------------------------------------------
 type print.printCmd(logStream, pc) returns (err)
   modifies *
-  modifies ghost(cbLen, cbErr, cbNode, cbStop, cbRet, cbLineNo, cbLine, cbHeader, cbElems, cbNElems, scRd, scPos, privLo, evOf, accKey, accP, accN, accH, bufSink, bufSticky, sinkFailed, sinkPend, prLen, prSink, prArg, prArgs, csvLen, csvW, csvN, csvRow, tnodes, tdepth, tmax, tmapOf, jlen, tvLen, tv, tseg, tvSet, adLen, adName, adVal, adSep, adRoot, procLen, procTime, procSrc, lastOpen, cfgRd)
+  modifies ghost(cbLen, cbErr, cbNode, cbStop, cbRet, cbLineNo, cbLine, cbHeader, cbElems, cbNElems, scRd, scPos, privLo, evOf, accKey, accP, accN, accH, bufSink, bufSticky, sinkFailed, sinkPend, prLen, prSink, prArg, prArgs, prFmt, csvLen, csvW, csvN, csvRow, tnodes, tdepth, tmax, tmapOf, jlen, tvLen, tv, tseg, tvSet, adLen, adName, adVal, adSep, adRoot, procLen, procTime, procSrc, lastOpen, cfgRd)
 
 type print.withFileReaders(fileNames, cb) returns (err)
   modifies *
-  modifies ghost(cbLen, cbErr, cbNode, cbStop, cbRet, cbLineNo, cbLine, cbHeader, cbElems, cbNElems, scRd, scPos, privLo, evOf, accKey, accP, accN, accH, bufSink, bufSticky, sinkFailed, sinkPend, prLen, prSink, prArg, prArgs, csvLen, csvW, csvN, csvRow, tnodes, tdepth, tmax, tmapOf, jlen, tvLen, tv, tseg, tvSet, adLen, adName, adVal, adSep, adRoot, procLen, procTime, procSrc, lastOpen, cfgRd)
+  modifies ghost(cbLen, cbErr, cbNode, cbStop, cbRet, cbLineNo, cbLine, cbHeader, cbElems, cbNElems, scRd, scPos, privLo, evOf, accKey, accP, accN, accH, bufSink, bufSticky, sinkFailed, sinkPend, prLen, prSink, prArg, prArgs, prFmt, csvLen, csvW, csvN, csvRow, tnodes, tdepth, tmax, tmapOf, jlen, tvLen, tv, tseg, tvSet, adLen, adName, adVal, adSep, adRoot, procLen, procTime, procSrc, lastOpen, cfgRd)
 
 func NewPrintCommand$1$1$1 returns (err)
   props C16 C06 C14 C08
   requires @streams len(streams) == 1 && o != nil && printCb != nil
   dyncall 1 print.printCmd
   modifies *
-  modifies ghost(cbLen, cbErr, cbNode, cbStop, cbRet, cbLineNo, cbLine, cbHeader, cbElems, cbNElems, scRd, scPos, privLo, evOf, accKey, accP, accN, accH, bufSink, bufSticky, sinkFailed, sinkPend, prLen, prSink, prArg, prArgs, csvLen, csvW, csvN, csvRow, tnodes, tdepth, tmax, tmapOf, jlen, tvLen, tv, tseg, tvSet, adLen, adName, adVal, adSep, adRoot, procLen, procTime, procSrc, lastOpen, cfgRd)
+  modifies ghost(cbLen, cbErr, cbNode, cbStop, cbRet, cbLineNo, cbLine, cbHeader, cbElems, cbNElems, scRd, scPos, privLo, evOf, accKey, accP, accN, accH, bufSink, bufSticky, sinkFailed, sinkPend, prLen, prSink, prArg, prArgs, prFmt, csvLen, csvW, csvN, csvRow, tnodes, tdepth, tmax, tmapOf, jlen, tvLen, tv, tseg, tvSet, adLen, adName, adVal, adSep, adRoot, procLen, procTime, procSrc, lastOpen, cfgRd)
   // the command is actually run (exactly this call) and its error is what the closure returns
   ghost after dyncall 1 { let cmdErr := #ret }
   ensures @runs-the-command [C17 C16] err == cmdErr
@@ -101,7 +109,7 @@ func NewPrintCommand$1$1 returns (err)
   requires @loaded o != nil && cu.WithFileReaders != nil
   dyncall 1 print.withFileReaders
   modifies *
-  modifies ghost(cbLen, cbErr, cbNode, cbStop, cbRet, cbLineNo, cbLine, cbHeader, cbElems, cbNElems, scRd, scPos, privLo, evOf, accKey, accP, accN, accH, bufSink, bufSticky, sinkFailed, sinkPend, prLen, prSink, prArg, prArgs, csvLen, csvW, csvN, csvRow, tnodes, tdepth, tmax, tmapOf, jlen, tvLen, tv, tseg, tvSet, adLen, adName, adVal, adSep, adRoot, procLen, procTime, procSrc, lastOpen, cfgRd)
+  modifies ghost(cbLen, cbErr, cbNode, cbStop, cbRet, cbLineNo, cbLine, cbHeader, cbElems, cbNElems, scRd, scPos, privLo, evOf, accKey, accP, accN, accH, bufSink, bufSticky, sinkFailed, sinkPend, prLen, prSink, prArg, prArgs, prFmt, csvLen, csvW, csvN, csvRow, tnodes, tdepth, tmax, tmapOf, jlen, tvLen, tv, tseg, tvSet, adLen, adName, adVal, adSep, adRoot, procLen, procTime, procSrc, lastOpen, cfgRd)
   // the command is actually run (exactly this call) and its error is what the closure returns
   ghost after dyncall 1 { let cmdErr := #ret }
   ensures @runs-the-command [C17 C16] err == cmdErr
